@@ -693,6 +693,9 @@ func (gen *Generator) GenerateAssert(args []Sexp) error {
 }
 
 func (gen *Generator) GenerateInclude(args []Sexp) error {
+	if gen.env.sandboxed {
+		return fmt.Errorf("include: reading files is not allowed in a sandboxed interpreter")
+	}
 	if len(args) < 1 {
 		return WrongNargs
 	}
